@@ -54,6 +54,8 @@ def oracle(ctx, st, ob):
             d, nop = sc.true_min(G, ops, xi, xj)
             ev += 1
             it = items.get((i, j))
+            if it is not None and it[2]:
+                edges.append((i, j))
             limit = 5.3 - 1e-3
             known = 'long_contact_beyond_half_interplanar_spacing' if d >= spacing / 2 - 1e-3 else None
             if d < limit:
@@ -84,8 +86,6 @@ def oracle(ctx, st, ob):
                 if abs(it[0] - lim) > 1e-6 and bool(it[2]) != want:
                     common.add_violation(ctx, 'bonded label differs from the bonding rule (1.2 x radii, PART and hydrogen rules)',
                                          dict(case, pair=[a1.name, a2.name], dist=it[0], parts=[p1, p2]), want, it[2])
-                if it[2]:
-                    edges.append((i, j))
     # molecule numbers = connected components of the bond graph
     comp = union_find(n, edges)
     mol = ob['molindex']
@@ -138,6 +138,7 @@ def run(ctx):
                     nbad += 1
                     if nbad <= 5:
                         ctx.broken.append('correspondence Model/Sdm.v (float instance) differs from SDM.calc_sdm: %s, structure %s' % (what, st['name']))
+                        ctx.notes.setdefault('broken_cases', []).append({'what': what, 'text': gs.to_text(st)})
     ctx.cov['evaluations'] = ev
     ctx.cov['distinct_nontrivial'] = ev
     ctx.cov['rule'] = ('random structures (2-9 atoms in 1-3 bonded clusters, some on or near inversion centres / axes, elements C N O H Cl S, PARTs, '
